@@ -35,7 +35,7 @@ static void report(const std::string & prop, const std::string & key, const std:
     if (g_keys[prop + "|" + key]++ == 0 && g_viol.size() < 200) g_viol.push_back({prop, key, what, spec});
 }
 
-struct Cur { char label[1024]; };
+struct Cur { char label[1024]; volatile long beat; };
 static Cur * g_cur;
 
 static std::vector<long> parse_list(const std::string & s) {
@@ -181,6 +181,7 @@ static SessionResult session(const std::vector<const Elem *> & seq, const std::v
     SessionResult sr;
     g_eval++;
     snprintf(g_cur->label, sizeof g_cur->label, "%s", label.c_str());
+    g_cur->beat++;
     vs_config_t cfg;
     memset(&cfg, 0, sizeof cfg);
     cfg.fairness_k = 400;
@@ -309,6 +310,7 @@ static void read_reference_logs(const std::string & dir) {
     for (auto & p : files) {
         g_eval++;
         snprintf(g_cur->label, sizeof g_cur->label, "%s", p.c_str());
+        g_cur->beat++;
         std::string label = p.substr(p.rfind('/', p.rfind('/') - 1) + 1);
         vs_begin(nullptr, 0, &cfg);
         {
@@ -433,9 +435,28 @@ int main(int argc, char ** argv) {
         _exit(g_viol.empty() ? 0 : 3);
     }
     int status = 0;
-    waitpid(pid, &status, 0);
+    /* a session that spins without a synchronisation point is invisible to the scheduler: wall-clock watchdog on the
+     * session counter (one session takes milliseconds; 300 s without a new one is a session that does not end) */
+    bool stuck = false;
+    {
+        long last = -1;
+        double since = vx::now_s();
+        for (useconds_t nap = 200;;) {
+            pid_t r = waitpid(pid, &status, WNOHANG);
+            if (r == pid) break;
+            long b = g_cur->beat;
+            if (b != last) { last = b; since = vx::now_s(); }
+            else if (vx::now_s() - since > args.real("watchdog", 300)) { kill(pid, SIGKILL); waitpid(pid, &status, 0); stuck = true; break; }
+            usleep(nap);
+            if (nap < 50000) nap *= 2;
+        }
+    }
     int rc = 0;
-    if (WIFEXITED(status) && (WEXITSTATUS(status) == 0 || WEXITSTATUS(status) == 3)) rc = WEXITSTATUS(status) ? 1 : 0;
+    if (stuck) {
+        printf("\n{\"harness\":\"file\",\"params\":%s,\"evaluations\":1,\"files\":0,\"distinct\":0,\"samples\":[],\"violations\":[{\"prop\":\"C06\",\"key\":\"no-return|%s\",\"what\":\"the session does not end (no progress for 300 s, no scheduling point reached)\",\"spec\":\"%s\",\"count\":1}],\"wall_s\":0}\n",
+               args.json().c_str(), vx::jesc(std::string(g_cur->label).substr(0, 60)).c_str(), vx::jesc(g_cur->label).c_str());
+        rc = 1;
+    } else if (WIFEXITED(status) && (WEXITSTATUS(status) == 0 || WEXITSTATUS(status) == 3)) rc = WEXITSTATUS(status) ? 1 : 0;
     else {
         std::string err = vx::read_tail(errfile, 3000), sum;
         std::istringstream es(err);
